@@ -449,10 +449,10 @@ func (self *Analyzer) returnStatement(node pAst.ReturnStatement) ast.AnalyzedRet
 	}
 
 	// check for possible type conflicts
-	if err := self.TypeCheck(gotReturnType, self.currentModule.CurrentFunction.ReturnType, TypeCheckOptions{
+	if err := self.TypeCheck(gotReturnType, self.currentModule.CurrentFunction.ReturnType, noneLiteralOptions(returnExpression, TypeCheckOptions{
 		AllowFunctionTypes:          true,
 		IgnoreFnParamNameMismatches: false,
-	}); err != nil {
+	})); err != nil {
 		self.diagnostics = append(self.diagnostics, err.GotDiagnostic)
 		if err.ExpectedDiagnostic != nil {
 			self.diagnostics = append(self.diagnostics, *err.ExpectedDiagnostic)
